@@ -910,6 +910,9 @@ def nan_to_num_lin(a, nan, posinf, neginf):
     return _fin(r)
 
 
+EXP_ABSORB = [None]   # unit roundoff u when the one rounding effect modelled is on: exp(x) == 1.0 for 0 < 1-e^x < u
+
+
 def exp(a):
     if _conc(a):
         try:
@@ -917,6 +920,11 @@ def exp(a):
         except OverflowError:
             return math.inf
     if isinstance(a, LogV):
+        u = EXP_ABSORB[0]
+        if u is not None and isinstance(a.e, SX):
+            # IEEE fact (round to nearest, faithful exp): for x in (log(1-u), 0) the float exp(x) is exactly 1.0
+            gap = sub(1.0, a.e)
+            return sx_ite(And(gt(gap, 0.0), lt(gap, u)), SX.const(1.0), a.e)
         return a.e
     raise Unmodelled('exp of a symbolic linear-domain value')
 
